@@ -2,7 +2,8 @@
 
 Spec: spec/mech/StockComps.tla.  TLC enumerates, per component kind, the option sets (vec_size, length/shape, axis,
 scaling factors in {-2,1,3}, units configuration with exact km/m factors, use_mult/mult_val/normalize, vectorize_A, a
-second equation sharing inputs, one input used for both operands ...) and seeded small-integer inputs, checks the laws
+second equation sharing inputs, an input name given more than once in an equation, one input used for both operands,
+negative stacking axes ...) and seeded small-integer inputs, checks the laws
 (exact central difference of the formula = Jacobian column, quotient rule, Mux bijection, skew structure, polarisation,
 Pythagorean magnitude, A x = b and the implicit-function relation, hat weights) and exports for every scenario the exact
 rational outputs and the dense exact Jacobian d(outputs)/d(source values).
@@ -407,7 +408,8 @@ INVARIANT Export
     ctx.rule = ('every scenario exported by StockComps.tla: per component kind %s the option sets (vec_size 1-3, '
                 'length/shape, axis, scaling factors {-2,1,3}^(2..3), units none / km / m with exact factors 1/1000 and '
                 '1000 on alternating inputs, use_mult x mult source x mult_val, normalize, constructor vs add_* route, '
-                'vectorize_A, second equation sharing inputs, one input as both operands) x %d seeded integer input sets; '
+                'vectorize_A, second equation sharing inputs, an input name repeated within an equation, MuxComp axes -3..2 with '
+                'the shape of the output, one input as both operands) x %d seeded integer input sets; '
                 'each built as the real component in a Problem and compared (outputs, totals fwd/rev alternating, '
                 'residual-form sub-Jacobians for BalanceComp/LinearSystemComp) with the exact rationals at 1e-12; '
                 'non-trivial = scenario with units, vec_size>1, non-unit scaling, normalisation/multiplier or spline'
